@@ -5,6 +5,7 @@ struct Stats { long steals, mails, executed, cancelled, outstanding_allocations,
 void init(int workers, int reported_concurrency = 0);   // fresh scheduler with `workers` virtual workers
 void finish();                                           // fails the execution if tasks were left behind or leaked
 bool interleave();                                       // inside a body: optionally let another idle worker run one task now
+bool nested();                                           // inside a body: optionally the CURRENT worker runs one task now (a nested wait inside the body re-enters the dispatcher: own pool, mail, steal, stream)
 int  run_others(int n);                                   // inside a body: other idle workers run up to n tasks now (setup for 'stalled body' variants); returns how many ran
 void set_idle_hook(bool (*hook)());                        // called when a wait has no task left to run: a foreign thread's progress (async activity); returns true if it did something
 int  current_worker();
